@@ -1,2 +1,11 @@
 #!/bin/sh
-exit 0
+# Build the framework from files on disk only (offline): the Coq development and the Go harness.
+set -e
+cd "$(dirname "$0")"
+export GOFLAGS=-mod=mod GOPROXY=off GOSUMDB=off GOTOOLCHAIN=local
+mkdir -p work evidence
+cp /repo/go.sum harness/go.sum 2>/dev/null || true
+(cd harness && go build -o bin/ ./cmd/...)
+if [ -x harness/bin/zogtables ]; then (cd harness && ./bin/zogtables > ../coq/Gen/Tables.v.new && mv ../coq/Gen/Tables.v.new ../coq/Gen/Tables.v); fi
+(cd coq && coq_makefile -f _CoqProject -o Makefile >/dev/null && timeout 1500 make -j16 >/dev/null)
+echo setup ok
